@@ -54,6 +54,7 @@ func (vfs *OrefaFS) Chdir(dir string) error {
 
 	absPath, _ := vfs.Abs(dir)
 
+	avfs.VerifBeforeLock(&vfs.mu, false)
 	vfs.mu.RLock()
 	nd, ok := vfs.nodes[absPath]
 	vfs.mu.RUnlock()
@@ -99,6 +100,7 @@ func (vfs *OrefaFS) Chmod(name string, mode fs.FileMode) error {
 
 	absPath, _ := vfs.Abs(name)
 
+	avfs.VerifBeforeLock(&vfs.mu, false)
 	vfs.mu.RLock()
 	nd, ok := vfs.nodes[absPath]
 	vfs.mu.RUnlock()
@@ -107,6 +109,7 @@ func (vfs *OrefaFS) Chmod(name string, mode fs.FileMode) error {
 		return &fs.PathError{Op: op, Path: name, Err: vfs.err.NoSuchFile}
 	}
 
+	avfs.VerifBeforeLock(&nd.mu, true)
 	nd.mu.Lock()
 	nd.setMode(mode)
 	nd.mu.Unlock()
@@ -130,6 +133,7 @@ func (vfs *OrefaFS) Chown(name string, uid, gid int) error {
 
 	absPath, _ := vfs.Abs(name)
 
+	avfs.VerifBeforeLock(&vfs.mu, false)
 	vfs.mu.RLock()
 	nd, ok := vfs.nodes[absPath]
 	vfs.mu.RUnlock()
@@ -138,6 +142,7 @@ func (vfs *OrefaFS) Chown(name string, uid, gid int) error {
 		return &fs.PathError{Op: op, Path: name, Err: vfs.err.NoSuchFile}
 	}
 
+	avfs.VerifBeforeLock(&nd.mu, true)
 	nd.mu.Lock()
 	nd.setOwner(uid, gid)
 	nd.mu.Unlock()
@@ -156,6 +161,7 @@ func (vfs *OrefaFS) Chtimes(name string, atime, mtime time.Time) error {
 
 	absPath, _ := vfs.Abs(name)
 
+	avfs.VerifBeforeLock(&vfs.mu, false)
 	vfs.mu.RLock()
 	nd, ok := vfs.nodes[absPath]
 	vfs.mu.RUnlock()
@@ -164,6 +170,7 @@ func (vfs *OrefaFS) Chtimes(name string, atime, mtime time.Time) error {
 		return &fs.PathError{Op: op, Path: name, Err: vfs.err.NoSuchFile}
 	}
 
+	avfs.VerifBeforeLock(&nd.mu, true)
 	nd.mu.Lock()
 	nd.setModTime(mtime)
 	nd.mu.Unlock()
@@ -306,6 +313,7 @@ func (vfs *OrefaFS) Lchown(name string, uid, gid int) error {
 
 	absPath, _ := vfs.Abs(name)
 
+	avfs.VerifBeforeLock(&vfs.mu, false)
 	vfs.mu.RLock()
 	nd, ok := vfs.nodes[absPath]
 	vfs.mu.RUnlock()
@@ -314,6 +322,7 @@ func (vfs *OrefaFS) Lchown(name string, uid, gid int) error {
 		return &fs.PathError{Op: op, Path: name, Err: vfs.err.NoSuchFile}
 	}
 
+	avfs.VerifBeforeLock(&nd.mu, true)
 	nd.mu.Lock()
 	nd.setOwner(uid, gid)
 	nd.mu.Unlock()
@@ -331,6 +340,7 @@ func (vfs *OrefaFS) Link(oldname, newname string) error {
 
 	nDirName, nFileName := avfs.SplitAbs(vfs, nAbsPath)
 
+	avfs.VerifBeforeLock(&vfs.mu, false)
 	vfs.mu.RLock()
 	oChild, oChildOk := vfs.nodes[oAbsPath]
 	_, nChildOk := vfs.nodes[nAbsPath]
@@ -343,6 +353,7 @@ func (vfs *OrefaFS) Link(oldname, newname string) error {
 		if vfs.OSType() == avfs.OsWindows {
 			oDirName, _ := avfs.SplitAbs(vfs, oAbsPath)
 
+			avfs.VerifBeforeLock(&vfs.mu, false)
 			vfs.mu.RLock()
 			_, oParentOk := vfs.nodes[oDirName]
 			vfs.mu.RUnlock()
@@ -359,9 +370,11 @@ func (vfs *OrefaFS) Link(oldname, newname string) error {
 		return &os.LinkError{Op: op, Old: oldname, New: newname, Err: vfs.err.NoSuchFile}
 	}
 
+	avfs.VerifBeforeLock(&oChild.mu, true)
 	oChild.mu.Lock()
 	defer oChild.mu.Unlock()
 
+	avfs.VerifBeforeLock(&nParent.mu, true)
 	nParent.mu.Lock()
 	defer nParent.mu.Unlock()
 
@@ -383,6 +396,7 @@ func (vfs *OrefaFS) Link(oldname, newname string) error {
 		return &os.LinkError{Op: op, Old: oldname, New: newname, Err: err}
 	}
 
+	avfs.VerifBeforeLock(&vfs.mu, true)
 	vfs.mu.Lock()
 	vfs.nodes[nAbsPath] = oChild
 	vfs.mu.Unlock()
@@ -448,6 +462,7 @@ func (vfs *OrefaFS) Mkdir(name string, perm fs.FileMode) error {
 	absPath, _ := vfs.Abs(name)
 	dirName, fileName := avfs.SplitAbs(vfs, absPath)
 
+	avfs.VerifBeforeLock(&vfs.mu, true)
 	vfs.mu.Lock()
 	defer vfs.mu.Unlock()
 
@@ -492,6 +507,7 @@ func (vfs *OrefaFS) MkdirAll(path string, perm fs.FileMode) error {
 
 	absPath, _ := vfs.Abs(path)
 
+	avfs.VerifBeforeLock(&vfs.mu, true)
 	vfs.mu.Lock()
 	defer vfs.mu.Unlock()
 
@@ -570,6 +586,7 @@ func (vfs *OrefaFS) OpenFile(name string, flag int, perm fs.FileMode) (avfs.File
 	absPath, _ := vfs.Abs(name)
 	dirName, fileName := avfs.SplitAbs(vfs, absPath)
 
+	avfs.VerifBeforeLock(&vfs.mu, false)
 	vfs.mu.RLock()
 	parent, parentOk := vfs.nodes[dirName]
 	child, childOk := vfs.nodes[absPath]
@@ -592,6 +609,7 @@ func (vfs *OrefaFS) OpenFile(name string, flag int, perm fs.FileMode) (avfs.File
 			return (*OrefaFile)(nil), &fs.PathError{Op: op, Path: name, Err: vfs.err.PermDenied}
 		}
 
+		avfs.VerifBeforeLock(&vfs.mu, true)
 		vfs.mu.Lock()
 		defer vfs.mu.Unlock()
 
@@ -613,6 +631,7 @@ func (vfs *OrefaFS) OpenFile(name string, flag int, perm fs.FileMode) (avfs.File
 			}
 
 			if om&avfs.OpenTruncate != 0 {
+				avfs.VerifBeforeLock(&child.mu, true)
 				child.mu.Lock()
 				child.truncate(0)
 				child.mu.Unlock()
@@ -685,6 +704,7 @@ func (vfs *OrefaFS) Remove(name string) error {
 	absPath, _ := vfs.Abs(name)
 	dirName, fileName := avfs.SplitAbs(vfs, absPath)
 
+	avfs.VerifBeforeLock(&vfs.mu, true)
 	vfs.mu.Lock()
 	defer vfs.mu.Unlock()
 
@@ -695,9 +715,11 @@ func (vfs *OrefaFS) Remove(name string) error {
 		return &fs.PathError{Op: op, Path: name, Err: vfs.err.NoSuchFile}
 	}
 
+	avfs.VerifBeforeLock(&parent.mu, true)
 	parent.mu.Lock()
 	defer parent.mu.Unlock()
 
+	avfs.VerifBeforeLock(&child.mu, true)
 	child.mu.Lock()
 	defer child.mu.Unlock()
 
@@ -727,6 +749,7 @@ func (vfs *OrefaFS) RemoveAll(path string) error {
 	absPath, _ := vfs.Abs(path)
 	dirName, fileName := avfs.SplitAbs(vfs, absPath)
 
+	avfs.VerifBeforeLock(&vfs.mu, true)
 	vfs.mu.Lock()
 	defer vfs.mu.Unlock()
 
@@ -779,6 +802,7 @@ func (vfs *OrefaFS) Rename(oldname, newname string) error {
 	oDirName, oFileName := avfs.SplitAbs(vfs, oAbsPath)
 	nDirName, nFileName := avfs.SplitAbs(vfs, nAbsPath)
 
+	avfs.VerifBeforeLock(&vfs.mu, false)
 	vfs.mu.RLock()
 	oChild, oChildOk := vfs.nodes[oAbsPath]
 	oParent, oParentOk := vfs.nodes[oDirName]
@@ -799,10 +823,12 @@ func (vfs *OrefaFS) Rename(oldname, newname string) error {
 		return &os.LinkError{Op: op, Old: oldname, New: newname, Err: err}
 	}
 
+	avfs.VerifBeforeLock(&nParent.mu, true)
 	nParent.mu.Lock()
 	defer nParent.mu.Unlock()
 
 	if nParent != oParent {
+		avfs.VerifBeforeLock(&oParent.mu, true)
 		oParent.mu.Lock()
 		defer oParent.mu.Unlock()
 	}
@@ -811,6 +837,7 @@ func (vfs *OrefaFS) Rename(oldname, newname string) error {
 
 	delete(oParent.children, oFileName)
 
+	avfs.VerifBeforeLock(&vfs.mu, true)
 	vfs.mu.Lock()
 	defer vfs.mu.Unlock()
 
@@ -884,11 +911,13 @@ func (vfs *OrefaFS) stat(path, op string) (fs.FileInfo, error) {
 	absPath, _ := vfs.Abs(path)
 	dirName, fileName := avfs.SplitAbs(vfs, absPath)
 
+	avfs.VerifBeforeLock(&vfs.mu, false)
 	vfs.mu.RLock()
 	child, childOk := vfs.nodes[absPath]
 	vfs.mu.RUnlock()
 
 	if !childOk {
+		avfs.VerifBeforeLock(&vfs.mu, false)
 		vfs.mu.RLock()
 		parent, parentOk := vfs.nodes[dirName]
 		vfs.mu.RUnlock()
@@ -962,6 +991,7 @@ func (vfs *OrefaFS) Truncate(name string, size int64) error {
 
 	absPath, _ := vfs.Abs(name)
 
+	avfs.VerifBeforeLock(&vfs.mu, false)
 	vfs.mu.RLock()
 	child, childOk := vfs.nodes[absPath]
 	vfs.mu.RUnlock()
@@ -986,6 +1016,7 @@ func (vfs *OrefaFS) Truncate(name string, size int64) error {
 		return &fs.PathError{Op: op, Path: name, Err: vfs.err.InvalidArgument}
 	}
 
+	avfs.VerifBeforeLock(&child.mu, true)
 	child.mu.Lock()
 	child.truncate(size)
 	child.mu.Unlock()
